@@ -88,10 +88,11 @@ theorem C10_once_per_backoff (st : Bool) (bo : Nat) (nr : Bool) (hist tail : Lis
   · obtain ⟨hi, _, _⟩ := reach_spec st bo nr hist
     exact Sys.frozen_until_timer tail hi hna
 
-/-- **C10 (an outlier's share never goes up)**: when a request's adjustment sees a mixed marking
+/-- **C10 (share never up under a mixed marking)**: when a request's adjustment sees a mixed marking
     (some servers rated outliers, some good), the effective weight `e'ᵢ` of every server not rated
-    good satisfies `e'ᵢ · Σe ≤ eᵢ · Σe'` — whatever the ratings, readiness, timer and history. -/
-theorem C10_outlier_share_not_up (st : Bool) (bo : Nat) (nr : Bool) (hist : List Op) (cookie : Option Key)
+    good satisfies `e'ᵢ · Σe ≤ eᵢ · Σe'` — whatever the ratings (negative ones included), readiness,
+    timer and history. -/
+theorem C10_mixed_share_not_up (st : Bool) (bo : Nat) (nr : Bool) (hist : List Op) (cookie : Option Key)
     (mt : Option Mut) (i : Nat)
     (hm : (reach st bo nr hist).reb.marks.2 = true)
     (hbad : (reach st bo nr hist).reb.marks.1[i]? = some false) :
@@ -136,7 +137,7 @@ theorem C10_outlier_share_not_up (st : Bool) (bo : Nat) (nr : Bool) (hist : List
 /-- **C10 ("some server is rated an outlier" is a mixed marking)**: with non-negative ratings
     (failure ratios, latencies) the zero sentinel / median guarantee that at least one server is
     rated good, so whenever some server is rated an outlier the adjustment that runs is the marked
-    one to which `C10_outlier_share_not_up` and `C10_outlier_loses` apply — never `convergeWeights`. -/
+    one to which `C10_mixed_share_not_up` and `C10_outlier_loses_partial` apply — never `convergeWeights`. -/
 theorem C10_outlier_means_mixed (r : Reb) (hnn : ∀ p ∈ r.servers, 0 ≤ p.rating) (i : Nat)
     (hbad : r.marks.1[i]? = some false) : r.marks.2 = true := by
   have hnn' : ∀ v ∈ r.servers.map (·.rating), 0 ≤ v := by
@@ -145,6 +146,36 @@ theorem C10_outlier_means_mixed (r : Reb) (hnn : ∀ p ∈ r.servers, 0 ≤ p.ra
     exact hnn p hp
   unfold Reb.marks at hbad ⊢
   exact markServers_mixed _ hnn' i hbad
+
+/-
+Full clause: "an adjustment made while some servers are rated as outliers never increases the traffic
+share of any outlier", for whatever ratings.  With *negative* ratings every server can be rated an
+outlier; then `convergeWeights` runs and the share of an outlier can rise
+(`C10_negative_ratings_counterexample`).  Ratings of the built-in meter are ratios in [0,1]; the clause
+is proved for non-negative ratings, the hypothesis being explicit.
+-/
+/-- **C10 (an outlier's share never goes up)**: with non-negative ratings, whenever server `i` is rated
+    an outlier at a request, its effective weight `e'ᵢ` after the request satisfies
+    `e'ᵢ · Σe ≤ eᵢ · Σe'` — whatever the readiness, timer and history. -/
+theorem C10_outlier_share_not_up (st : Bool) (bo : Nat) (nr : Bool) (hist : List Op) (cookie : Option Key)
+    (mt : Option Mut) (i : Nat)
+    (hnn : ∀ p ∈ (reach st bo nr hist).reb.servers, 0 ≤ p.rating)
+    (hbad : (reach st bo nr hist).reb.marks.1[i]? = some false) :
+    ((reach st bo nr hist).step (.serve cookie mt)).1.bal.ws.getD i 0 * (reach st bo nr hist).bal.ws.sum
+      ≤ (reach st bo nr hist).bal.ws.getD i 0 * ((reach st bo nr hist).step (.serve cookie mt)).1.bal.ws.sum :=
+  C10_mixed_share_not_up st bo nr hist cookie mt i (C10_outlier_means_mixed _ hnn i hbad) hbad
+
+/-- with ratings −1, −1 both servers are rated outliers (no mixed marking), the request converges the
+    weights [4, 1] back to [1, 1], and the share of the second server — rated an outlier — rises from
+    1/5 to 1/2 -/
+theorem C10_negative_ratings_counterexample :
+    let a : URL := ⟨"http", "a", "/", "", ""⟩
+    let b : URL := ⟨"http", "b", "/", "", ""⟩
+    let s := reach false 1000 true [.upsert a (some 1), .upsert b (some 1), .rate b.key (1 / 2), .serve none none,
+      .rate a.key (-1), .rate b.key (-1), .adv 1001]
+    s.bal.ws = [4, 1] ∧ s.reb.marks = ([false, false], false) ∧
+    (s.step (.serve none none)).1.bal.ws = [1, 1] := by
+  decide +kernel
 
 /-- **C10 (membership / configured-weight change restores the configured weights)**: right after a
     successful add, update or remove every effective weight equals the configured one, and the timer
@@ -217,12 +248,20 @@ theorem C10_timer_bound (st : Bool) (bo : Nat) (nr : Bool) (hist : List Op) (d :
   show (reach st bo nr hist).reb.timer < (((reach st bo nr hist).now + d : Nat) : Int)
   omega
 
-/-- **C10 (a persisting outlier loses share)**: in a reachable state with at least two servers, all
-    meters ready and the timer expired (by `C10_timer_bound`: at the latest one back-off after the
-    previous adjustment, i.e. within two back-off intervals of becoming an outlier), a request's
-    adjustment strictly lowers the share of every server rated an outlier that has positive weight —
-    provided some server rated good has positive weight and is below the cap (`4·e ≤ 4096`). -/
-theorem C10_outlier_loses (st : Bool) (bo : Nat) (nr : Bool) (hist : List Op) (i j : Nat) (p q p' : Rec)
+/-
+Full clause: "a server that remains an outlier while all meters are ready loses share within two
+back-off intervals unless every *other server* is already at the cap".  The code lets only servers
+rated *good* grow (`setMarkedWeights`), so with two outliers and all good servers at the cap the
+outlier keeps its share although the other outlier is far below the cap
+(`C10_outlier_loses_counterexample`; recorded as known finding `outlier_unless_only_good`).  Proved:
+the clause with "every other server" read as "every other server rated good" — the hypothesis
+`hgood … hqcap` below.
+-/
+/-- **C10 (a persisting outlier loses share), partial**: in a reachable state with at least two
+    servers, all meters ready and the timer expired, the adjustment strictly lowers the share of every
+    server rated an outlier that has positive weight — provided some server *rated good* has positive
+    weight and is below the cap (`4·e ≤ 4096`). -/
+theorem C10_outlier_loses_partial (st : Bool) (bo : Nat) (nr : Bool) (hist : List Op) (i j : Nat) (p q p' : Rec)
     (hlen : 2 ≤ (reach st bo nr hist).reb.servers.length)
     (hready : (reach st bo nr hist).reb.metricsReady = true)
     (hexp : (reach st bo nr hist).reb.timer < ((reach st bo nr hist).now : Int))
@@ -235,6 +274,73 @@ theorem C10_outlier_loses (st : Bool) (bo : Nat) (nr : Bool) (hist : List Op) (i
     p'.cur * sumCur (reach st bo nr hist).reb.servers
       < p.cur * sumCur ((reach st bo nr hist).reb.adjust (reach st bo nr hist).now).servers :=
   Reb.adjust_share_lt _ _ hm hlen hready hexp i p p' hp hp' hbad hpos ⟨j, q, hq, hgood, hqpos, hqcap⟩
+
+/-- **C10 (… within two back-off intervals), partial — on the observable weights**: after *any* history,
+    once the clock has advanced by more than one back-off (`adv d`, `backoff < d`: the timer has expired
+    whatever happened before, so at the latest two back-off intervals after the server became an
+    outlier), a request — any cookie, any handler — strictly lowers the traffic share of server `i`:
+    `e'ᵢ · Σe < eᵢ · Σe'` on the balancer's `ServerWeight`s, provided there are at least two servers,
+    all meters are ready, `i` is rated an outlier and has positive weight, and some server `j` rated
+    good has positive weight below the cap. -/
+theorem C10_outlier_loses_within_partial (st : Bool) (bo : Nat) (nr : Bool) (hist : List Op) (d : Nat)
+    (cookie : Option Key) (mt : Option Mut) (i j e g : Nat)
+    (hd : (reach st bo nr hist).reb.backoff < d)
+    (hlen : 2 ≤ (reach st bo nr (hist ++ [.adv d])).reb.servers.length)
+    (hready : (reach st bo nr (hist ++ [.adv d])).reb.metricsReady = true)
+    (hm : (reach st bo nr (hist ++ [.adv d])).reb.marks.2 = true)
+    (hbad : (reach st bo nr (hist ++ [.adv d])).reb.marks.1[i]? = some false)
+    (he : (reach st bo nr (hist ++ [.adv d])).bal.ws[i]? = some e) (hpos : 0 < e)
+    (hgood : (reach st bo nr (hist ++ [.adv d])).reb.marks.1[j]? = some true)
+    (hg : (reach st bo nr (hist ++ [.adv d])).bal.ws[j]? = some g) (hgpos : 0 < g) (hgcap : 4 * g ≤ 4096) :
+    ((reach st bo nr (hist ++ [.adv d])).step (.serve cookie mt)).1.bal.ws.getD i 0
+        * (reach st bo nr (hist ++ [.adv d])).bal.ws.sum
+      < e * ((reach st bo nr (hist ++ [.adv d])).step (.serve cookie mt)).1.bal.ws.sum := by
+  have hexp := (C10_timer_bound st bo nr hist d).2 hd
+  obtain ⟨hi, _, hv⟩ := reach_spec st bo nr (hist ++ [.adv d])
+  generalize reach st bo nr (hist ++ [.adv d]) = s at *
+  have hws : s.bal.ws = s.reb.servers.map (·.cur) := (hi.reb hv).ws.symm
+  have hil : i < s.bal.ws.length := by
+    by_contra hlt; rw [List.getElem?_eq_none (by omega)] at he; cases he
+  have hjl : j < s.bal.ws.length := by
+    by_contra hlt; rw [List.getElem?_eq_none (by omega)] at hg; cases hg
+  have hp : ∃ w ∈ s.bal.ws, 0 < w := by
+    rw [List.getElem?_eq_getElem hjl] at hg
+    exact ⟨g, Option.some.inj hg ▸ List.getElem_mem hjl, hgpos⟩
+  rw [Sys.serve_ws hi hv hp cookie mt]
+  have hsl : s.reb.servers.length = s.bal.ws.length := by rw [hws]; simp
+  have his : i < s.reb.servers.length := by omega
+  have hjs : j < s.reb.servers.length := by omega
+  have hcur : ∀ k (hk : k < s.reb.servers.length) (x : Nat), s.bal.ws[k]? = some x → s.reb.servers[k].cur = x := by
+    intro k hk x hx
+    rw [hws, List.getElem?_map, List.getElem?_eq_getElem hk] at hx
+    exact Option.some.inj hx
+  have hl' : i < (s.reb.adjust s.now).servers.length := by
+    have := congrArg List.length (Reb.adjust_spec (hi.reb hv) s.now).2.1
+    simp only [List.length_map] at this
+    omega
+  have := Reb.adjust_share_lt s.reb s.now hm hlen hready hexp i s.reb.servers[i] (s.reb.adjust s.now).servers[i]
+    (List.getElem?_eq_getElem his) (List.getElem?_eq_getElem hl') hbad
+    (by rw [hcur i his e he]; exact hpos)
+    ⟨j, s.reb.servers[j], List.getElem?_eq_getElem hjs, hgood, by rw [hcur j hjs g hg]; exact hgpos,
+      by rw [hcur j hjs g hg]; exact hgcap⟩
+  rw [hcur i his e he] at this
+  rw [hws]
+  simpa [sumCur_eq, List.getD_eq_getElem?_getD, hl'] using this
+
+/-- the witness of known finding `outlier_unless_only_good`: four servers of weight 1, two of them
+    rated outliers (½, ½, 0, 0); after six adjustments the weights are [1, 1, 4096, 4096]; server 0 is
+    still rated an outlier, all meters are ready, the timer has expired, server 1 (another server) has
+    weight 1 — far from the cap — and yet the next request leaves the share of server 0 where it was -/
+theorem C10_outlier_loses_counterexample :
+    let u (h : String) : URL := ⟨"http", h, "/", "", ""⟩
+    let round : List Op := [.serve none none, .adv 2000]
+    let s := reach false 1000 true ([.upsert (u "a") (some 1), .upsert (u "b") (some 1), .upsert (u "c") (some 1),
+      .upsert (u "d") (some 1), .rate (u "a").key (1 / 2), .rate (u "b").key (1 / 2)]
+      ++ round ++ round ++ round ++ round ++ round ++ round)
+    s.bal.ws = [1, 1, 4096, 4096] ∧ s.reb.marks = ([false, false, true, true], true) ∧
+    s.reb.metricsReady = true ∧ s.reb.timer < (s.now : Int) ∧
+    (s.step (.serve none none)).1.bal.ws = [1, 1, 4096, 4096] := by
+  decide +kernel
 
 /-- **C10 (convergence within six adjustments)**: from any reachable state, six adjustments that run
     with no server rated differently from the others (meter readings may change in between) leave
@@ -262,7 +368,7 @@ private def hist0 : List Op :=
 example : (reach false 1000 true hist0).reb.marks = ([true, false, true], true) := by decide +kernel
 example : ((reach false 1000 true hist0).step (.serve none none)).1.bal.ws = [4, 1, 12] := by decide +kernel
 example : ∀ p ∈ (reach false 1000 true hist0).reb.servers, 0 ≤ p.rating := by decide +kernel
--- hypotheses of `C10_outlier_loses` hold there
+-- hypotheses of `C10_outlier_loses_partial` hold there
 example : 2 ≤ (reach false 1000 true hist0).reb.servers.length ∧ (reach false 1000 true hist0).reb.metricsReady = true ∧
     (reach false 1000 true hist0).reb.timer < ((reach false 1000 true hist0).now : Int) := by decide +kernel
 -- a converging adjustment (`ConvAdj`) exists: after the ratings are equal again and the back-off has passed
@@ -278,6 +384,12 @@ example : ∀ op ∈ [Op.serve none none, Op.adv 500, Op.rate (u "a").key 1, Op.
   rcases h with rfl | rfl | rfl | rfl <;> simp [Op.isAdmin]
 example : (((reach false 1000 true (hist0 ++ [.serve none none])).applyOps [.adv 500, .serve none none]).now : Int)
     ≤ (reach false 1000 true (hist0 ++ [.serve none none])).reb.timer := by decide +kernel
+-- hypotheses of `C10_outlier_loses_within_partial`: after `adv 1001 > backoff` server 1 is the outlier (weight 1), server 0 good below the cap
+example : (reach false 1000 true (hist0 ++ [.adv 1001])).reb.marks.1[1]? = some false ∧
+    (reach false 1000 true (hist0 ++ [.adv 1001])).bal.ws[1]? = some 1 ∧
+    (reach false 1000 true (hist0 ++ [.adv 1001])).reb.marks.1[0]? = some true ∧
+    (reach false 1000 true (hist0 ++ [.adv 1001])).bal.ws[0]? = some 1 ∧
+    (reach false 1000 true hist0).reb.backoff < 1001 := by decide +kernel
 -- `C10_range` / `C10_membership_restores` hypotheses
 example : specOf true hist0 (u "c").key = some 3 := by decide +kernel
 example : ((reach false 1000 true hist0).step (.remove (u "a"))).2 = .ok := by decide +kernel
